@@ -62,19 +62,18 @@ ASSUMPTIONS = [
     "defined up to |grad f| * coordinate rounding)",
     "iterate: a pixel whose agreement ratio lies within 1e-9 of the requested accuracy or whose absolute difference "
     "lies within 1e-9 (relative) of the tolerance at some level is a tie: counted as don't-care, not compared",
-    "sub-size maps are integer typed (a float-typed Array2D map makes slim_for_sub_slim / sub_pixel_areas raise "
-    "TypeError in the tree under test; reported separately, counted under skipped, not judged here)",
+    "sub-size maps are integer typed, plus float-typed maps as OverSamplingUniform.from_radial_bins / from_adaptive_scheme "
+    "build them (monitor index.float_typed_map; they raised TypeError before the repair recorded in known_findings.json)",
     "the plain evaluation path of @over_sample calls func(obj=..., grid=...): the directly decorated probe method "
     "therefore names its first parameter `obj` (every structure-decorator wrapper does)",
     "the adaptive sub-size *choice* is not part of the statement: the oracle reads the map from the grid the probe received",
 ]
 QUICK_JOBS = 8
-# A float-typed per-pixel map (what OverSamplingUniform.from_radial_bins / from_adaptive_scheme build) makes
-# slim_for_sub_slim / sub_pixel_areas / sub_mask_native_for_sub_mask_slim raise TypeError on the current tree. Reported to
-# the lead as a candidate finding; it is only *counted* (skipped_or_dont_care) until it is either repaired or listed in
-# known_findings.json with a classifier - then set this to True and the monitor `index.float_typed_map` decides it.
-JUDGE_FLOAT_TYPED_MAPS = False
-MIN_MONITORS = {"*": {"grid.formula": 20, "grid.count": 20, "index.slim_for_sub_slim": 20, "areas.each": 20,
+# A float-typed per-pixel map (what OverSamplingUniform.from_radial_bins / from_adaptive_scheme build) made
+# slim_for_sub_slim / sub_pixel_areas / sub_mask_native_for_sub_mask_slim raise TypeError. It was found by this module while
+# it was being built, repaired in /repo ("fix:" commit, known_findings.json -> fixed) and is judged since then.
+JUDGE_FLOAT_TYPED_MAPS = True
+MIN_MONITORS = {"*": {"grid.formula": 20, "grid.count": 20, "index.slim_for_sub_slim": 20, "index.float_typed_map": 5, "areas.each": 20,
                       "areas.sum": 20, "binned.mean": 20, "binned.affine": 20, "binned.constant": 20,
                       "sampler.array_via_func": 20, "decorator.plain.one_call_with_centres": 5,
                       "decorator.plain.result": 5, "decorator.sub.probe_grid": 20, "decorator.sub.binned": 20,
